@@ -87,7 +87,7 @@ func TestVerifC55(t *testing.T) {
 		return
 	}
 	const perRepo = 5
-	groups := env.Pick(8, 200)
+	groups := env.Pick(8, 96)
 	for g := 0; g < groups; g++ {
 		if !env.Mine(g) {
 			continue
